@@ -54,22 +54,24 @@ func register(p *Property) { registry[p.ID] = p }
 
 // Ctx is the state of one run.
 type Ctx struct {
-	Prop      *Property
-	Tier      string
-	RepoDir   string
-	VerifDir  string
-	Fset      *token.FileSet
-	Pkgs      []*packages.Package
-	AllPkgs   map[string]*packages.Package
-	Prog      *ssa.Program
-	Obls      []*Obligation
-	oblIdx    map[string]*Obligation
-	Stats     map[string]int
-	Notes     []string
-	Tables    map[string]interface{}
-	ModPath   string
-	GOARCH    string
-	mutFields map[*types.Var]bool
+	Prop          *Property
+	Tier          string
+	RepoDir       string
+	VerifDir      string
+	Fset          *token.FileSet
+	Pkgs          []*packages.Package
+	AllPkgs       map[string]*packages.Package
+	Prog          *ssa.Program
+	Obls          []*Obligation
+	oblIdx        map[string]*Obligation
+	Stats         map[string]int
+	Notes         []string
+	Tables        map[string]interface{}
+	ModPath       string
+	GOARCH        string
+	mutFields     map[*types.Var]bool
+	nonNilGlobals map[*ssa.Global]bool
+	nonNilDone    map[*ssa.Global]bool
 }
 
 func (c *Ctx) note(format string, a ...interface{}) {
